@@ -124,6 +124,8 @@ mod transactions;
 mod tree_store;
 mod tuple_types;
 mod types;
+#[cfg(all(redb_verif, not(redb_no_std)))]
+pub mod verif;
 
 // core cannot tell whether the current thread is unwinding, and redb's Drop impls consult that in
 // opposite ways, so neither constant is safe to assume. Restricted to panic = "abort" instead,
